@@ -1,4 +1,5 @@
-(* Entry.v (C01) — round-2 widening of the executable model (definitions only).
+(* Entry.v (C01) — round-2 / round-4 widening of the executable model (definitions only;
+   round 4: both variants of make_multi_confmaps and the selector of finding F60, below).
    ConfMaps.v is imported by C14/C18 and is left untouched; this file adds
      * make_grid_vectors as a function returning the pair (xv, yv),
      * the two DataPipes of sleap_nn/data/confidence_maps.py with their key
@@ -51,6 +52,65 @@ Definition dp_centroids (cents : list (list kp)) (H W num : nat) (sigma : Q) (s 
 Definition all_missing (inst : list kp) : bool :=
   forallb (fun p => match p with None => true | Some _ => false end) inst.
 
+(* ====================================================================== round 4
+   Finding F60 (cross-sample broadcast).  `make_multi_confmaps` of the pinned tree
+   flattens (samples, n_inst) and broadcasts every animal's (1, nodes, h, w) map
+   over ALL samples: with n_samples >= 2 every sample receives the maximum over
+   the animals of all samples (ConfMaps.make_multi_confmaps models exactly that).
+   The property speaks per frame ("the per-cell maximum over animals", "an
+   all-zero channel when it is the only one", shape (nodes, H/stride, W/stride)),
+   so the repaired variant computes, for every sample, the maximum over ITS OWN
+   animals.  `fx = false` : pinned tree (before the repair proposed in
+   proposed_fixes/C01_F60.diff) ; `fx = true` : repaired variant.  The harness
+   detects which variant /repo implements by replaying corpus/C01/F60_*.json. *)
+
+(* one sample: the fold of make_multi_confmaps over this sample's animals only *)
+Definition multi_one (insts : list (list kp)) (n_nodes : nat) (xv yv : list Q) (sig : Q) : list cmap :=
+  fold_left (fun acc inst => map2 cmap_max acc (map (chan sig xv yv) inst)) insts
+            (repeat (zero_map (length xv) (length yv)) n_nodes).
+
+(* repaired make_multi_confmaps: per sample *)
+Definition make_multi_confmaps_ps (pts : list (list (list kp))) (n_nodes : nat)
+  (xv yv : list Q) (sig : Q) : list (list cmap) :=
+  map (fun insts => multi_one insts n_nodes xv yv sig) pts.
+
+Definition mmc (fx : bool) (pts : list (list (list kp))) (n_nodes : nat)
+  (xv yv : list Q) (sig : Q) : list (list cmap) :=
+  if fx then make_multi_confmaps_ps pts n_nodes xv yv sig
+  else make_multi_confmaps pts n_nodes xv yv sig.
+
+(* (samples, instances, 2)[:, :num].unsqueeze(-2) : the centroid layout *)
+Definition cent_pts (cents : list (list kp)) (num : nat) : list (list (list kp)) :=
+  map (fun l => map (fun c => [c]) (firstn num l)) cents.
+
+Definition generate_multiconfmaps_v (fx : bool) (pts : list (list (list kp))) (n_nodes : nat)
+  (H W num_instances : nat) (sigma : Q) (s : nat) : list (list cmap) :=
+  mmc fx (map (firstn num_instances) pts) n_nodes (grid W s) (grid H s) (stride_sigma sigma s).
+
+Definition generate_multiconfmaps_centroids_v (fx : bool) (cents : list (list kp))
+  (H W num_instances : nat) (sigma : Q) (s : nat) : list (list cmap) :=
+  mmc fx (cent_pts cents num_instances) 1 (grid W s) (grid H s) (stride_sigma sigma s).
+
+Definition dp_multi_v (fx : bool) (pts : list (list (list kp))) (n_nodes H W : nat) (sigma : Q) (s : nat)
+  : list (list cmap) :=
+  let g := make_grid_vectors H W s in
+  mmc fx pts n_nodes (fst g) (snd g) (stride_sigma sigma s).
+
+Definition dp_centroids_v (fx : bool) (cents : list (list kp)) (H W num : nat) (sigma : Q) (s : nat)
+  : list (list cmap) :=
+  let g := make_grid_vectors H W s in
+  mmc fx (cent_pts cents num) 1 (fst g) (snd g) (stride_sigma sigma s).
+
+(* ---- the selector of F60, decidable: channel c of sample smp is affected only
+   if an animal of ANOTHER sample has node c labelled ---- *)
+Definition kp_visible (p : kp) : bool := match p with Some _ => true | None => false end.
+
+Definition other_samples {A} (pts : list (list A)) (smp : nat) : list A :=
+  concat (firstn smp pts ++ skipn (S smp) pts).
+
+Definition others_contribute (pts : list (list (list kp))) (smp c : nat) : bool :=
+  existsb (fun inst => kp_visible (nth c inst None)) (other_samples pts smp).
+
 (* ---- entry point for the correspondence harness (round 2) ---- *)
 Inductive case2 :=
 | C2Old (c : case)
@@ -70,6 +130,18 @@ Definition run2 (c : case2) : list (list cmap) :=
   | C2DpOther p H W g s => dp_single_other p H W g s
   | C2DpMulti p n H W g s => dp_multi p n H W g s
   | C2DpCent p H W k g s => dp_centroids p H W k g s
+  end.
+
+(* round 4: the same cases evaluated in the variant `fx` of make_multi_confmaps *)
+Definition run3 (a : bool * case2) : list (list cmap) :=
+  let '(fx, c) := a in
+  match c with
+  | C2Old (CMulti p n H W k g s) => generate_multiconfmaps_v fx p n H W k g s
+  | C2Old (CCent p H W k g s) => generate_multiconfmaps_centroids_v fx p H W k g s
+  | C2MkMulti p n xv yv g => mmc fx p n xv yv g
+  | C2DpMulti p n H W g s => dp_multi_v fx p n H W g s
+  | C2DpCent p H W k g s => dp_centroids_v fx p H W k g s
+  | _ => run2 c
   end.
 
 Definition run_grid (a : nat * nat * nat) : list Q * list Q :=
